@@ -162,7 +162,7 @@ ENUM_GROUPS = {
                  'parameters without a name in the new first namespace, own names that already contain `$`'],
         tests=[
             _t('tiny_roundtrip', ['C03'], 'Every mapping set of the bound, rendered as Tiny v2 text in two different line orders, is read by tiny_v2::read into exactly the rendered entries (none lost, merged or re-parented), both trees are written to the same bytes, these bytes are the key-sorted rendering of the content, an independent parser reads them back to the same set, and write(read(write(M))) == write(M).',
-               '2 namespaces: all 11^3=1331 sets over class keys {A, p/B, A$I}, each absent or one of 10 shapes (name present/absent; comment none/empty/one-line/multi-line; unicode names; 0..3 fields; 0..3 methods incl. same name/different descriptor; 0..3 parameters with/without source name); 3 namespaces: all 13^2=169 sets over {A, p/B} with 12 shapes (the 4 absent-name patterns on class, field, method+parameter); 4 namespaces: 17 sets over {A} (the 8 absent-name patterns, bare and with field+method+parameter); total 1517 sets, each rendered sorted and reversed (comments after members, methods before fields); plus all 341 comments of length <= 4 over {a, backslash, n, line break} on one class.', timeout=300),
+               '2 namespaces: all 11^3=1331 sets over class keys {A, p/B, A$I}, each absent or one of 10 shapes (name present/absent; comment none/empty/one-line/multi-line; unicode names; 0..3 fields; 0..3 methods incl. same name/different descriptor; 0..3 parameters with/without source name); 3 namespaces: all 13^2=169 sets over {A, p/B} with 12 shapes (the 4 absent-name patterns on class, field, method+parameter); 4 namespaces: 17 sets over {A} (the 8 absent-name patterns, bare and with field+method+parameter); total 1517 sets, each rendered sorted and reversed (comments after members, methods before fields); plus all 341 comments of length <= 4 over {a, backslash, n, line break} on one class. Plus 84 sets whose names in the second namespace (class, field, method, parameter, and the source name of the parameter) are the 42 strings of length 1..2 over {space, no-break space, ideographic space, em space, a, e-acute}.', timeout=300),
             _t('merge_is_faithful_join', ['C09'], "Mappings::merge(A,B) is Ok exactly when the two sides do not conflict (different comments on one entry, different parameter source names, different first namespace) and then equals the model-level join: key union at every level, names [first, A's, B's] with absent where a side lacks the entry, comment of whichever side has one; both projections contain the inputs.",
                'all pairs (A over (s,a), B over (s,b)): wide universe 4^3=64 sets over keys {A, p/B, A$I} x shapes {named, unnamed+comment, named+commented field}; deep universe 241 sets with key A: class name present/absent x comment none/c/d x field (LA;,f) absent/named/unnamed+c/named+d x method ((Lp/B;)V,m) in 10 variants (absent, named, commented, parameter 0 with source name x / y / none / comment c / comment d, parameter 1, unnamed method); 64^2+241^2=62177 pairs, plus 241 pairs with different first-namespace names; 62418 cases.', timeout=300),
             _t('diff_then_apply', ['C04'], 'MappingsDiff::diff(A,B) is Ok exactly when every entry of A and B has a name in the second namespace, and then apply_to(A) yields exactly B, also when the diff travels through .tinydiff text (written by the harness, read by tiny_v2_diff::read).',
